@@ -34,6 +34,10 @@ def _check_trace(world, ev, before, rec, after, model, out):
     eff = tc.effective_dest_ops(rec)
     if eff:
         _check_fragment(world, ev, before, rec, after, eff, model, out)
+    # a job that ends Queued ran add_to_queue: its merges on the master queues against the model fragment, and
+    # the conclusions of add_to_queue_spec on the real post-state
+    if rec.get('status') == 'Queued':
+        _check_queue_fragment(world, ev, before, rec, after, tc.effective_ops(rec, tc.is_master_queue), model, out)
 
 
 def _expected_pairs(world, before, pr):
@@ -54,6 +58,135 @@ def _dev_key(n):
     import re
     m = re.match(r'^development/(\d+)(?:\.(\d+))?$', n)
     return (int(m.group(1)), float('inf') if m.group(2) is None else int(m.group(2)))
+
+
+def _pr_of_job(ev, before, first_src):
+    """The pull request a job evaluates: the one of the event (its parent for an event on a child pull request);
+    for a commit event, the open one whose source branch is `first_src`."""
+    import re
+    pr = None
+    if ev.get('e') == 'job_pr':
+        pr = next((p for p in before['prs'] if p['id'] == ev['pr']), None)
+        if pr and pr['author'] == 'bert-e':     # event on a child pull request: the parent is evaluated
+            ids = re.findall(r'\d+', pr['description'])
+            pr = next((p for p in before['prs'] if ids and p['id'] == int(ids[0])), None)
+    if pr is None:
+        pr = next((p for p in before['prs'] if p['src'] == first_src and p['state'] == 'OPEN'), None)
+    return pr
+
+
+def _queue_triples(after, pr, pairs):
+    """(master queue, integration branch, new queue-integration branch) per target, as queueing.py names them:
+    q/<version>, q/w/<pr id>/<version>/<source>.  The queue of a hotfix branch carries the four-number version
+    the cascade computed from the tags; it is read from the names the real refs carry."""
+    import re
+    from . import tracecheck as tc
+    refs = after['refs']
+    triples = []
+    for t, w in pairs:
+        ver = tc.version_of(t)
+        if t.startswith('hotfix/'):
+            pat = re.compile(r'^q/w/%d/(%s\.\d+)/%s$' % (pr['id'], re.escape(ver), re.escape(pr['src'])))
+            cands = sorted(m.group(1) for m in (pat.match(n) for n in refs) if m)
+            if not cands:
+                pat = re.compile(r'^q/(%s\.\d+)$' % re.escape(ver))
+                cands = sorted(m.group(1) for m in (pat.match(n) for n in refs) if m)
+            if cands:
+                ver = cands[-1]
+        triples.append(('q/%s' % ver, w, 'q/w/%d/%s/%s' % (pr['id'], ver, pr['src'])))
+    return triples
+
+
+def _check_queue_fragment(world, ev, before, rec, after, effq, model, out):
+    """add_to_queue of one pull request (the job ended Queued): the merges recorded on the master queue branches
+    must be add_to_queue_ops of the model for the triples derived from the pull request, and the conclusions
+    (b)-(e) of add_to_queue_spec (Proofs/QueueProofs.v) must hold on the real remote after the job."""
+    import re
+    out['hist']['fragment:add_to_queue'] = out['hist'].get('fragment:add_to_queue', 0) + 1
+
+    def bad(fn, inp, impl, mod):
+        inp = dict(inp, event=ev)
+        out['mismatch'].append({'function': fn, 'input': inp, 'impl': impl, 'model': mod})
+
+    if not effq:
+        bad('add_to_queue_ops', {}, [], 'a job that ends Queued merges into the master queues')
+        return
+    pr = _pr_of_job(ev, before, effq[0][1][0])
+    if pr is None:
+        bad('add_to_queue_ops', {'ops': effq}, effq, 'no pull request explains these queue merges')
+        return
+    pairs = _expected_pairs(world, before, pr)
+    triples = _queue_triples(after, pr, pairs)
+    names = {}
+    for q, w, qi in triples:
+        for n in (q, w, qi):
+            names.setdefault(n, len(names))
+    for d, ss in effq:
+        names.setdefault(d, len(names))
+        for x in ss:
+            names.setdefault(x, len(names))
+    # the strategy of each step, from the shape of the real operations (strategy_ops s q w prev_qint)
+    per_dst = {}
+    for d, ss in effq:
+        per_dst.setdefault(d, []).append(ss)
+    sg = ''
+    for k in range(1, len(triples)):
+        q, w, _qi = triples[k]
+        prev = triples[k - 1][2]
+        ops = per_dst.get(q, [])
+        if ops == [[prev, w]]:
+            sg += 'R'
+        elif ops == [[w], [prev]]:
+            sg += 'C'
+        elif ops == [[prev], [w]]:
+            sg += 'K'
+        else:
+            sg += 'O'
+    out['hist']['aq_strategy:' + (sg or '-')] = out['hist'].get('aq_strategy:' + (sg or '-'), 0) + 1
+    req = 'aqops %s %s' % (sg or '-', ','.join('%d:%d:%d' % (names[q], names[w], names[qi]) for q, w, qi in triples))
+    got = model.batch([req])[0]
+    real = ';'.join('%d:%s' % (names[d], '+'.join(str(names[x]) for x in ss)) for d, ss in effq)
+    out['trace_ops'] += 1
+    if got != real:
+        inv = {v: k for k, v in names.items()}
+        try:
+            shown = [[inv[int(o.split(':')[0])], [inv[int(x)] for x in o.split(':')[1].split('+')]]
+                     for o in got.split(';') if o]
+        except (ValueError, KeyError, IndexError):
+            shown = got
+        bad('add_to_queue_ops', {'pr': pr['id'], 'triples': triples, 'strategies': sg}, effq, shown)
+    # ---- the conclusions of add_to_queue_spec on the real post-state (the bare remote after the push)
+    ra, rb = after['refs'], before['refs']
+    first = next((t for t in rec.get('trace', []) if t['op'] == 'merge' and t['ok'] and t.get('before')
+                  and t['dst'] == triples[0][0]), None)
+    c_refs = (first or {}).get('before') or {}      # the clone add_to_queue started from
+
+    def anc(a, b):
+        return bool(a) and bool(b) and world.is_ancestor(a, b)
+
+    for i, (q, w, qi) in enumerate(triples):
+        dest = pairs[i][0]
+        what = {'pr': pr['id'], 'q': q, 'w': w, 'qint': qi}
+        if ra.get(qi) is None or ra.get(q) is None or ra[qi] != ra[q]:
+            bad('add_to_queue_spec (b) queue-integration branch = master queue', what,
+                [ra.get(qi), ra.get(q)], 'equal and present')
+            continue
+        w_tip = c_refs.get(w) or rb.get(w) or ra.get(w)
+        if not anc(w_tip, ra[qi]):
+            bad('add_to_queue_spec (c) queue-integration branch contains its integration branch', what, False, True)
+        if i and not anc(ra.get(triples[i - 1][2]), ra[qi]):
+            bad('add_to_queue_spec (d) contains the queue-integration branch of the previous target',
+                dict(what, prev=triples[i - 1][2]), False, True)
+        if not anc(rb.get(dest) or c_refs.get(dest), ra[qi]):
+            bad('add_to_queue_spec (e) contains its destination', dict(what, dest=dest), False, True)
+        if q in c_refs and not anc(c_refs[q], ra[qi]):
+            bad('add_to_queue_spec (e) contains the master queue as it was', what, False, True)
+        ver = q[len('q/'):]
+        for n in sorted(rb):
+            if re.match(r'^q/w/\d+/%s/' % re.escape(ver), n) and n != qi and not anc(rb[n], ra[qi]):
+                bad('add_to_queue_spec (e) contains the previous queue-integration branches of its version',
+                    dict(what, older=n), False, True)
+        out['trace_ops'] += 1
 
 
 def _check_fragment(world, ev, before, rec, after, eff, model, out):
@@ -92,17 +225,8 @@ def _check_fragment(world, ev, before, rec, after, eff, model, out):
         return
     # merge_integration_branches of one pull request
     out['hist']['fragment:merge_integration'] = out['hist'].get('fragment:merge_integration', 0) + 1
-    pr = None
-    if ev.get('e') == 'job_pr':
-        pr = next((p for p in before['prs'] if p['id'] == ev['pr']), None)
-        if pr and pr['author'] == 'bert-e':     # event on a child pull request: the parent is evaluated
-            import re
-            ids = re.findall(r'\d+', pr['description'])
-            pr = next((p for p in before['prs'] if ids and p['id'] == int(ids[0])), None)
-    if pr is None:
-        # commit event: the pull request is the one whose source is merged into the first destination
-        first_src = eff[0][1][0]
-        pr = next((p for p in before['prs'] if p['src'] == first_src and p['state'] == 'OPEN'), None)
+    # commit event: the pull request is the one whose source is merged into the first destination
+    pr = _pr_of_job(ev, before, eff[0][1][0])
     if pr is None:
         out['mismatch'].append({'function': 'merge_integration_ops', 'input': {'event': ev, 'ops': eff},
                                 'impl': eff, 'model': 'no pull request explains these destination merges'})
